@@ -116,7 +116,10 @@ def render_expr(e, ctx, lang):
     if t == 'arith':
         return '(%s %s %s)' % (R(e[2]), e[1], R(e[3]))
     if t == 'cmp':
-        return '(%s %s %s)' % (R(e[2]), e[1], R(e[3]))
+        op = e[1]
+        if op in ('===', '!==') and lang == 'py':
+            op = op[:2]
+        return '(%s %s %s)' % (R(e[2]), op, R(e[3]))
     if t == 'and':
         return '(%s %s %s)' % (R(e[1]), 'and' if lang == 'py' else '&&', R(e[2]))
     if t == 'or':
